@@ -344,7 +344,7 @@ func runCase(c *tcase) *result {
 	mkSandbox(S, c.Target)
 	data, err := buildTar(S, c.Ents)
 	if err != nil {
-		res.outcome = "unbuildable"
+		res.outcome = "unbuildable: " + strings.ReplaceAll(err.Error(), S, "$S")
 		return res
 	}
 	res.built = true
@@ -725,11 +725,11 @@ func main() {
 		// 2. longer words over smaller alphabets below a directory root
 		if th {
 			explore(d, "main3", live[:2], dirRoot, 3, ma)
-			explore(d, "reduced", live, dirRoot, 3, fixed(reducedAlphabet()))
-			explore(d, "reduced4", live[:1], dirRoot, 4, fixed(reducedAlphabet()))
-			explore(d, "tiny", live[:1], dirRoot, 5, fixed(tinyAlphabet()))
+			explore(d, "reduced4", live, dirRoot, 4, fixed(reducedAlphabet()))
+			explore(d, "tiny", live[:1], dirRoot, 6, fixed(tinyAlphabet()))
 		} else {
-			explore(d, "tiny", live[:1], dirRoot, 3, fixed(tinyAlphabet()))
+			explore(d, "reduced", live[:1], dirRoot, 3, fixed(reducedAlphabet()))
+			explore(d, "tiny", live[:1], dirRoot, 4, fixed(tinyAlphabet()))
 		}
 		d.mu.Lock()
 		r.Set("outcome_counts", d.outcomes)
